@@ -1,4 +1,7 @@
 import Sebuf.Serve
+import Sebuf.Decode
+import Sebuf.ClientResp
+import Sebuf.Lemmas.Decode
 /-!
 # C11 — malformed traffic is rejected cleanly and never crashes server or client
 
@@ -10,6 +13,15 @@ Partial by nature: panics, hangs, stack exhaustion and runtime 5xx are not expre
 total functional model. The `serve` correspondence runs mutated and random bodies under every
 content type against the really compiled server (and canned responses against the compiled
 client) with per-request time limits; it is used as correspondence and failing-input search.
+
+The decoders: `Sebuf.Decode` transcribes every generated decode edit (tied to the emitted text by
+`edit_blocks_transcribed`, `body_readers_transcribed`, `child_keys_transcribed`).
+`decoder_sound_partial` / `dispatch_only_fully_decoded_partial` prove that, where the dropped
+conversion error is harmless (`swallowSafe`, no duplicate keys), a dispatched message is the
+documented meaning of every member of the body; the witnesses after them show the full statement
+false today (HEX garbage read as base64, `null` read as the epoch, `null` list elements read as 0,
+shadowed duplicate members never decoded, flattened child members dropped, truncated binary
+transfers decoded). `client_total` and its companions cover the client.
 -/
 namespace Sebuf.C11
 open Sebuf Sebuf.Bind Sebuf.Call Sebuf.Serve
@@ -82,5 +94,535 @@ theorem client_codec_total (ct : String) : clientRespCodec ct = "json" ∨ clien
 example : serveBody (V := Nat) (fun _ => none) (fun _ => none) { bodyVerb := true, rawBody := [123], ct := "application/json" } [] =
     .bad400 "body".toList :=
   undecodable_is_400 _ _ _ _ rfl (by decide) (by unfold decodeBody; split <;> rfl)
+
+/-! ## the generated decoders -/
+
+open Sebuf.Decode Sebuf.Json Sebuf.Surgery
+
+/-- **tie**: the edits `Decode.Impl.editMember` transcribes are the text go-http emits now: the
+member is unmarshalled into the Go type shown, converted, and on ANY failure (`err == nil` /
+`decErr == nil` / `parseErr == nil` without an else branch) left as it is. -/
+theorem edit_blocks_transcribed :
+    Gen.Decoders.editBlocks.lookup "BytesReq.bHex" = some "if v, ok := raw[\"bHex\"]; ok { var s string if err := json.Unmarshal(v, &s); err == nil { decoded, decErr := hex.DecodeString(s) if decErr == nil { raw[\"bHex\"], _ = json.Marshal(base64.StdEncoding.EncodeToString(decoded)) } } }" ∧
+    Gen.Decoders.editBlocks.lookup "BytesReq.bRaw" = some "if v, ok := raw[\"bRaw\"]; ok { var s string if err := json.Unmarshal(v, &s); err == nil { decoded, decErr := base64.RawStdEncoding.DecodeString(s) if decErr == nil { raw[\"bRaw\"], _ = json.Marshal(base64.StdEncoding.EncodeToString(decoded)) } } }" ∧
+    Gen.Decoders.editBlocks.lookup "BytesReq.bUrl" = some "if v, ok := raw[\"bUrl\"]; ok { var s string if err := json.Unmarshal(v, &s); err == nil { decoded, decErr := base64.URLEncoding.DecodeString(s) if decErr == nil { raw[\"bUrl\"], _ = json.Marshal(base64.StdEncoding.EncodeToString(decoded)) } } }" ∧
+    Gen.Decoders.editBlocks.lookup "BytesReq.bUrlraw" = some "if v, ok := raw[\"bUrlraw\"]; ok { var s string if err := json.Unmarshal(v, &s); err == nil { decoded, decErr := base64.RawURLEncoding.DecodeString(s) if decErr == nil { raw[\"bUrlraw\"], _ = json.Marshal(base64.StdEncoding.EncodeToString(decoded)) } } }" ∧
+    Gen.Decoders.editBlocks.lookup "EmptyReq.metaNull" = some "if rawVal, ok := raw[\"metaNull\"]; ok && string(rawVal) == \"null\" { raw[\"metaNull\"] = []byte(\"{}\") }" ∧
+    Gen.Decoders.editBlocks.lookup "Int64Req.big" = some "if rawVal, ok := raw[\"big\"]; ok { var num int64 if err := json.Unmarshal(rawVal, &num); err == nil { raw[\"big\"], _ = json.Marshal(strconv.FormatInt(num, 10)) } }" ∧
+    Gen.Decoders.editBlocks.lookup "Int64Req.ubig" = some "if rawVal, ok := raw[\"ubig\"]; ok { var num uint64 if err := json.Unmarshal(rawVal, &num); err == nil { raw[\"ubig\"], _ = json.Marshal(strconv.FormatUint(num, 10)) } }" ∧
+    Gen.Decoders.editBlocks.lookup "Int64Req.bigs" = some "if rawVal, ok := raw[\"bigs\"]; ok { var nums []int64 if err := json.Unmarshal(rawVal, &nums); err == nil { strs := make([]string, len(nums)) for i, n := range nums { strs[i] = strconv.FormatInt(n, 10) } raw[\"bigs\"], _ = json.Marshal(strs) } }" ∧
+    Gen.Decoders.editBlocks.lookup "Int64Req.ubigs" = some "if rawVal, ok := raw[\"ubigs\"]; ok { var nums []uint64 if err := json.Unmarshal(rawVal, &nums); err == nil { strs := make([]string, len(nums)) for i, n := range nums { strs[i] = strconv.FormatUint(n, 10) } raw[\"ubigs\"], _ = json.Marshal(strs) } }" ∧
+    Gen.Decoders.editBlocks.lookup "Int64Req.sBig" = some "if rawVal, ok := raw[\"sBig\"]; ok { var num int64 if err := json.Unmarshal(rawVal, &num); err == nil { raw[\"sBig\"], _ = json.Marshal(strconv.FormatInt(num, 10)) } }" ∧
+    Gen.Decoders.editBlocks.lookup "NullReq.maybeS" = some "if rawVal, ok := raw[\"maybeS\"]; ok && string(rawVal) == \"null\" { delete(raw, \"maybeS\") }" ∧
+    Gen.Decoders.editBlocks.lookup "NullReq.maybeN" = some "if rawVal, ok := raw[\"maybeN\"]; ok && string(rawVal) == \"null\" { delete(raw, \"maybeN\") }" ∧
+    Gen.Decoders.editBlocks.lookup "NullReq.maybeB" = some "if rawVal, ok := raw[\"maybeB\"]; ok && string(rawVal) == \"null\" { delete(raw, \"maybeB\") }" ∧
+    Gen.Decoders.editBlocks.lookup "TsReq.tSecs" = some "if v, ok := raw[\"tSecs\"]; ok { var n int64 if err := json.Unmarshal(v, &n); err == nil { t := time.Unix(n, 0) raw[\"tSecs\"], _ = json.Marshal(t.Format(time.RFC3339Nano)) } }" ∧
+    Gen.Decoders.editBlocks.lookup "TsReq.tMillis" = some "if v, ok := raw[\"tMillis\"]; ok { var n int64 if err := json.Unmarshal(v, &n); err == nil { t := time.UnixMilli(n) raw[\"tMillis\"], _ = json.Marshal(t.Format(time.RFC3339Nano)) } }" ∧
+    Gen.Decoders.editBlocks.lookup "TsReq.tDate" = some "if v, ok := raw[\"tDate\"]; ok { var s string if err := json.Unmarshal(v, &s); err == nil { t, parseErr := time.Parse(\"2006-01-02\", s) if parseErr == nil { raw[\"tDate\"], _ = json.Marshal(t.Format(time.RFC3339Nano)) } } }" := by
+  refine ⟨rfl, rfl, rfl, rfl, rfl, rfl, rfl, rfl, rfl, rfl, rfl, rfl, rfl, rfl, rfl, rfl⟩
+
+/-- **tie**: the two body readers. JSON: read, error check, empty check. Binary: read, EMPTY CHECK,
+then an error check that lets `io.ErrUnexpectedEOF` through (`Decode.Impl.readJSON/readBinary`). -/
+theorem body_readers_transcribed :
+    Gen.Decoders.bindDataFromJSONRequest.take 4 = [
+      "bodyBytes, err := io.ReadAll(r.Body)",
+      "r.Body = io.NopCloser(bytes.NewReader(bodyBytes))",
+      "if err != nil { return fmt.Errorf(\"could not read request body: %w\", err) }",
+      "if len(bodyBytes) == 0 { return nil }"] ∧
+    Gen.Decoders.bindDataFromBinaryRequest.take 4 = [
+      "bodyBytes, err := io.ReadAll(r.Body)",
+      "r.Body = io.NopCloser(bytes.NewReader(bodyBytes))",
+      "if len(bodyBytes) == 0 { return nil }",
+      "if err != nil && !errors.Is(err, io.ErrUnexpectedEOF) { return fmt.Errorf(\"could not read request body: %w\", err) }"] := by
+  constructor <;> rfl
+
+/-- **tie**: which body key the flatten / flattened-oneof decoders file under which child key, and
+the json tags of the child structs encoding/json resolves those keys against. -/
+theorem child_keys_transcribed :
+    Gen.Decoders.childKeyMoves = [("FlatReq.home_street", "street"), ("FlatReq.home_zipCode", "zipCode"),
+      ("FlatReq.street", "street"), ("FlatReq.zipCode", "zipCode"), ("OneofFlatReq.body", "body"),
+      ("OneofFlatReq.langCode", "langCode"), ("OneofFlatReq.url", "url"), ("OneofFlatReq.width", "width")] ∧
+    Gen.Decoders.childJsonTags = [("ImageVariant", "url"), ("ImageVariant", "width"), ("Leaf", "street"),
+      ("Leaf", "zip_code"), ("TextVariant", "body"), ("TextVariant", "lang_code")] := by
+  constructor <;> rfl
+
+/-- the full statement of the decoder part: whatever member the server accepts, the value it
+dispatches is the member's documented meaning. FALSE today (witnesses below). -/
+def DecoderSound : Prop :=
+  ∀ (pj : PJ), pj.OK → ∀ (k : Str) (t : Tpl) (j : Json) (v : FV),
+    Impl.memberOutcome pj k t j = some v → Spec.memberMeaning pj k t j = some v
+
+/-- **decoder_sound_partial** (every template): on the members where the dropped conversion
+error is harmless, `Impl` accepts ⇒ the value dispatched is the documented meaning. -/
+theorem decoder_sound_partial (pj : PJ) (ok : pj.OK) (k : Str) (t : Tpl) (j : Json) (v : FV)
+    (hs : swallowSafe t j = true) (h : Impl.memberOutcome pj k t j = some v) :
+    Spec.memberMeaning pj k t j = some v := by
+  cases t with
+  | plain => simpa [Impl.memberOutcome, Impl.editMember, Spec.memberMeaning, Spec.reading] using h
+  | int64 u =>
+    simp only [Spec.memberMeaning, Spec.reading]
+    simp only [Impl.memberOutcome, Impl.editMember] at h
+    cases hg : goInt u j with
+    | none => simpa [hg] using h
+    | some n =>
+      simp only [hg] at h
+      rcases goInt_some u j n hg with ⟨hj, hn⟩ | ⟨hj, hr⟩
+      · subst hj; subst hn
+        have h0 : inRange64 u 0 = true := by cases u <;> decide
+        simp only [pjRead, ok.int64_str u 0 h0] at h
+        simp only [pjRead, ok.int64_null u]; exact h
+      · subst hj
+        simp only [pjRead, ok.int64_str u n hr] at h
+        simp only [pjRead, ok.int64_num u n hr]; exact h
+  | int64s u =>
+    simp only [Spec.memberMeaning, Spec.reading]
+    simp only [Impl.memberOutcome, Impl.editMember] at h
+    cases hg : goIntList u j with
+    | none => simpa [hg] using h
+    | some l =>
+      simp only [hg] at h
+      cases j with
+      | null =>
+        simp [goIntList] at hg; subst hg
+        simp only [pjRead, List.map_nil] at h
+        have := ok.int64s_strs u [] (by simp)
+        simp only [List.map_nil] at this
+        simp only [this] at h
+        simp only [pjRead, ok.int64s_null u]; exact h
+      | arr js =>
+        simp only [goIntList] at hg
+        have hn : Json.null ∉ js := by
+          intro hm
+          have := mem_null_hasNull js hm
+          simp [swallowSafe, this] at hs
+        obtain ⟨e, hr⟩ := goIntElems_no_null u js l hg hn
+        simp only [pjRead, ok.int64s_strs u l hr] at h
+        simp only [pjRead, e, ok.int64s_nums u l hr]; exact h
+      | bool _ => simp [goIntList] at hg
+      | num _ => simp [goIntList] at hg
+      | str _ => simp [goIntList] at hg
+      | obj _ => simp [goIntList] at hg
+  | nullable =>
+    by_cases hj : j = .null
+    · subst hj; simpa [Impl.memberOutcome, Impl.editMember, Spec.memberMeaning, Spec.reading] using h
+    · simpa [Impl.memberOutcome, Impl.editMember, Spec.memberMeaning, Spec.reading, hj] using h
+  | emptyNull =>
+    by_cases hj : j = .null
+    · subst hj; simpa [Impl.memberOutcome, Impl.editMember, Spec.memberMeaning, Spec.reading, pjRead] using h
+    · simpa [Impl.memberOutcome, Impl.editMember, Spec.memberMeaning, Spec.reading, hj] using h
+  | tsSecs =>
+    simp only [Impl.memberOutcome, Impl.editMember] at h
+    cases hg : goInt false j with
+    | none =>
+      simp only [hg] at h
+      cases j with
+      | num x =>
+        simp [pjRead, ok.ts_num x] at h
+      | null => simp [goInt] at hg
+      | bool _ => simpa [Spec.memberMeaning, Spec.reading] using h
+      | str _ => simpa [Spec.memberMeaning, Spec.reading] using h
+      | arr _ => simpa [Spec.memberMeaning, Spec.reading] using h
+      | obj _ => simpa [Spec.memberMeaning, Spec.reading] using h
+    | some n =>
+      simp only [hg] at h
+      rcases goInt_some false j n hg with ⟨hj, _⟩ | ⟨hj, _⟩
+      · subst hj; simp [swallowSafe, Json.isNull] at hs
+      · subst hj
+        simp only [pjRead, ok.ts_rfc n 0 (by decide)] at h
+        simp only [Spec.memberMeaning, Spec.reading]
+        by_cases hr : tsInRange n = true
+        · simp only [hr, if_true] at h ⊢; simpa using h
+        · simp [hr] at h
+  | tsMillis =>
+    simp only [Impl.memberOutcome, Impl.editMember] at h
+    cases hg : goInt false j with
+    | none =>
+      simp only [hg] at h
+      cases j with
+      | num x =>
+        simp [pjRead, ok.ts_num x] at h
+      | null => simp [goInt] at hg
+      | bool _ => simpa [Spec.memberMeaning, Spec.reading] using h
+      | str _ => simpa [Spec.memberMeaning, Spec.reading] using h
+      | arr _ => simpa [Spec.memberMeaning, Spec.reading] using h
+      | obj _ => simpa [Spec.memberMeaning, Spec.reading] using h
+    | some n =>
+      simp only [hg] at h
+      rcases goInt_some false j n hg with ⟨hj, _⟩ | ⟨hj, _⟩
+      · subst hj; simp [swallowSafe, Json.isNull] at hs
+      · subst hj
+        have hlt : (n % 1000).toNat * 1000000 < 1000000000 := by omega
+        simp only [pjRead, ok.ts_rfc (n / 1000) _ hlt] at h
+        simp only [Spec.memberMeaning, Spec.reading]
+        by_cases hr : tsInRange (n / 1000) = true
+        · simp only [hr, if_true] at h ⊢; simpa using h
+        · simp [hr] at h
+  | tsDate =>
+    simp only [Impl.memberOutcome, Impl.editMember] at h
+    cases j with
+    | str s =>
+      simp only [goStr] at h
+      simp only [Spec.memberMeaning, Spec.reading]
+      cases hp : parseDate s with
+      | none => simpa [hp] using h
+      | some d =>
+        simp only [hp] at h ⊢
+        simp only [pjRead, ok.ts_rfc (d * 86400) 0 (by decide)] at h
+        by_cases hr : tsInRange (d * 86400) = true
+        · simp only [hr, if_true] at h ⊢; simpa using h
+        · simp [hr] at h
+    | null =>
+      have : parseDate [] = none := rfl
+      simpa [goStr, this, Spec.memberMeaning, Spec.reading] using h
+    | bool _ => simpa [goStr, Spec.memberMeaning, Spec.reading] using h
+    | num _ => simpa [goStr, Spec.memberMeaning, Spec.reading] using h
+    | arr _ => simpa [goStr, Spec.memberMeaning, Spec.reading] using h
+    | obj _ => simpa [goStr, Spec.memberMeaning, Spec.reading] using h
+  | bytes e =>
+    simp only [Impl.memberOutcome, Impl.editMember] at h
+    cases j with
+    | str s =>
+      simp only [goStr] at h
+      simp only [Spec.memberMeaning, Spec.reading]
+      cases hd : sebufBytesDecode e (toBytes s) with
+      | some b =>
+        simp only [hd] at h ⊢
+        simpa [pjRead, ok.bytes_std e s b hd] using h
+      | none =>
+        simp only [hd] at h ⊢
+        by_cases he : e = 5
+        · subst he
+          simp [swallowSafe, sebufBytesDecode] at hs hd
+          simp [hd] at hs
+        · simpa [he] using h
+    | null =>
+      have hd : sebufBytesDecode e (toBytes []) = some [] := by
+        unfold sebufBytesDecode toBytes
+        split <;> rfl
+      simp only [goStr, hd] at h
+      have hb := ok.bytes_std e [] [] hd
+      have he : ofBytes (b64Encode .std []) = [] := rfl
+      simp only [pjRead, he] at h
+      rw [he] at hb
+      simp only [hb] at h
+      simpa [Spec.memberMeaning, Spec.reading, pjRead] using h
+    | bool _ => simpa [goStr, Spec.memberMeaning, Spec.reading] using h
+    | num _ => simpa [goStr, Spec.memberMeaning, Spec.reading] using h
+    | arr _ => simpa [goStr, Spec.memberMeaning, Spec.reading] using h
+    | obj _ => simpa [goStr, Spec.memberMeaning, Spec.reading] using h
+
+/-- a leaf instance for closed witnesses: bytes are read by the transcription of protojson's
+`unmarshalBytes`; the other leaves are not consulted by the witnesses that use it. -/
+def pjBytesOnly : PJ :=
+  { rfc := fun _ _ => [], int64 := fun _ _ => none, int64s := fun _ _ => none, ts := fun _ => none,
+    bytes := pjBytes, plain := fun _ _ => true }
+
+/-- non-vacuity of `decoder_sound_partial`: a hexadecimal member is accepted and means its bytes. -/
+example : swallowSafe (.bytes 5) (.str "cafe".toList) = true ∧
+    Impl.memberOutcome pjBytesOnly "bHex".toList (.bytes 5) (.str "cafe".toList) = some (.bytes [202, 254]) ∧
+    Spec.memberMeaning pjBytesOnly "bHex".toList (.bytes 5) (.str "cafe".toList) = some (.bytes [202, 254]) := by decide
+
+/-- **¬ DecoderSound, HEX** (finding `dispatched_undecodable:bytes_hex_read_as_base64`): text that is
+not hexadecimal makes `hex.DecodeString` fail, the error is dropped, protojson reads the same text
+as base64 and the handler receives bytes no hexadecimal reading of the body gives. Body
+`{"bHex":"zzzz"}`, field `b_hex` (bytes_encoding = HEX). -/
+theorem hex_accepts_garbage :
+    Impl.memberOutcome pjBytesOnly "bHex".toList (.bytes 5) (.str "zzzz".toList) = some (.bytes [207, 60, 243]) ∧
+    Spec.memberMeaning pjBytesOnly "bHex".toList (.bytes 5) (.str "zzzz".toList) = none := by decide
+
+/-- a hexadecimal typo: `deadbeeg` is dispatched as the six bytes of its base64 reading. -/
+theorem hex_typo_dispatched :
+    Impl.memberOutcome pjBytesOnly "bHex".toList (.bytes 5) (.str "deadbeeg".toList) = some (.bytes [117, 230, 157, 109, 231, 160]) ∧
+    Spec.memberMeaning pjBytesOnly "bHex".toList (.bytes 5) (.str "deadbeeg".toList) = none := by decide
+
+/-- why the fallback cannot be admitted for HEX: the two encodings accept common texts and read
+them differently, so which bytes a text means would depend on whether it happens to be valid hex. -/
+theorem hex_base64_conflict :
+    hexDecode (toBytes "deadbeef".toList) = some [222, 173, 190, 239] ∧
+    pjBytes "deadbeef".toList = some [117, 230, 157, 109, 231, 159] := by decide
+
+/-- for the base64 variants the dropped error IS re-examined by protojson (no finding): a member the
+declared variant refuses is read by protojson's own rule, which the Spec admits as `canonical`. -/
+theorem base64_variant_error_redetected (pj : PJ) (k : Str) (e : Nat) (he : e ≠ 5) (s : Str)
+    (hd : sebufBytesDecode e (toBytes s) = none) :
+    Impl.memberOutcome pj k (.bytes e) (.str s) = Spec.memberMeaning pj k (.bytes e) (.str s) := by
+  simp [Impl.memberOutcome, Impl.editMember, goStr, hd, Spec.memberMeaning, Spec.reading, he]
+
+/-- likewise for `int64_encoding = NUMBER`: a member Go's `json.Unmarshal` refuses for int64
+(a decimal string, `1e2`, `1.5`, `true`, …) is judged by protojson alone. -/
+theorem int64_error_redetected (pj : PJ) (k : Str) (u : Bool) (j : Json) (hg : goInt u j = none) :
+    Impl.memberOutcome pj k (.int64 u) j = Spec.memberMeaning pj k (.int64 u) j := by
+  simp [Impl.memberOutcome, Impl.editMember, hg, Spec.memberMeaning, Spec.reading]
+
+/-- and for the timestamp formats on every member but `null`: an RFC 3339 string, a fraction, an
+out-of-int64 number … go to protojson unchanged. -/
+theorem ts_error_redetected (pj : PJ) (ok : pj.OK) (k : Str) (j : Json) (hg : goInt false j = none) :
+    Impl.memberOutcome pj k .tsSecs j = Spec.memberMeaning pj k .tsSecs j := by
+  cases j with
+  | num x =>
+    cases x with
+    | int n =>
+      have hr : tsInRange n = false := by
+        simp only [goInt] at hg
+        by_cases h : inRange64 false n = true
+        · simp [h] at hg
+        · simp only [inRange64, Bool.false_eq_true, if_false, decide_eq_true_eq] at h
+          simp only [tsInRange, decide_eq_false_iff_not]
+          omega
+      simp [Impl.memberOutcome, Impl.editMember, hg, Spec.memberMeaning, Spec.reading, hr, pjRead, ok.ts_num]
+    | float t => simp [Impl.memberOutcome, Impl.editMember, goInt, Spec.memberMeaning, Spec.reading]
+  | null => simp [goInt] at hg
+  | bool _ => simp [Impl.memberOutcome, Impl.editMember, goInt, Spec.memberMeaning, Spec.reading]
+  | str _ => simp [Impl.memberOutcome, Impl.editMember, goInt, Spec.memberMeaning, Spec.reading]
+  | arr _ => simp [Impl.memberOutcome, Impl.editMember, goInt, Spec.memberMeaning, Spec.reading]
+  | obj _ => simp [Impl.memberOutcome, Impl.editMember, goInt, Spec.memberMeaning, Spec.reading]
+
+/-- **¬ DecoderSound, UNIX_SECONDS / UNIX_MILLIS** (finding `dispatched_value:timestamp_null_read_as_epoch`):
+`json.Unmarshal("null", &n)` succeeds with n = 0, so `{"tSecs":null}` reaches the handler with the
+field SET to 1970-01-01T00:00:00Z; proto3 JSON `null` means the field is absent. -/
+theorem ts_null_becomes_epoch (pj : PJ) (ok : pj.OK) (k : Str) :
+    Impl.memberOutcome pj k .tsSecs .null = some (.ts 0 0) ∧ Spec.memberMeaning pj k .tsSecs .null = some .unset ∧
+    Impl.memberOutcome pj k .tsMillis .null = some (.ts 0 0) ∧ Spec.memberMeaning pj k .tsMillis .null = some .unset := by
+  have h0 := ok.ts_rfc 0 0 (by decide)
+  have hr : tsInRange 0 = true := by decide
+  simp only [hr, if_true] at h0
+  refine ⟨?_, ?_, ?_, ?_⟩
+  · simp [Impl.memberOutcome, Impl.editMember, goInt, pjRead, h0]
+  · simp [Spec.memberMeaning, Spec.reading, pjRead, ok.ts_null]
+  · have e1 : (0 : Int) / 1000 = 0 := by decide
+    have e2 : ((0 : Int) % 1000).toNat * 1000000 = 0 := by decide
+    simp [Impl.memberOutcome, Impl.editMember, goInt, pjRead, e1, h0]
+  · simp [Spec.memberMeaning, Spec.reading, pjRead, ok.ts_null]
+
+/-- **¬ DecoderSound, repeated int64 NUMBER** (finding `dispatched_undecodable:null_list_element_read_as_zero`):
+`{"bigs":[1,null]}` — protojson refuses `null` as a list element, but `json.Unmarshal` into
+`[]int64` leaves a 0 there and the edit rewrites the member to `["1","0"]`: the handler sees [1, 0]. -/
+theorem int64_list_null_element_becomes_zero (pj : PJ) (ok : pj.OK) (k : Str) :
+    Impl.memberOutcome pj k (.int64s false) (.arr [.num (.int 1), .null]) = some (.ints [1, 0]) ∧
+    Spec.memberMeaning pj k (.int64s false) (.arr [.num (.int 1), .null]) = none := by
+  constructor
+  · have := ok.int64s_strs false [1, 0] (by intro n hn; simp at hn; rcases hn with rfl | rfl <;> decide)
+    simp only [List.map] at this
+    have hg : goIntList false (.arr [.num (.int 1), .null]) = some [1, 0] := by decide
+    simp [Impl.memberOutcome, Impl.editMember, hg, pjRead, this]
+  · have := ok.int64s_null_elem false [.num (.int 1), .null] (by simp)
+    simp [Spec.memberMeaning, Spec.reading, pjRead, this]
+
+/-- the same defect in the root unwrap of scalars (`json.Unmarshal(data, &x.Items)`): body `[1,null]`. -/
+theorem unwrap_null_element_becomes_zero :
+    Impl.unwrapInts (.arr [.num (.int 1), .null]) = some [1, 0] ∧ Spec.unwrapInts (.arr [.num (.int 1), .null]) = none := by decide
+
+/-! ## whole bodies -/
+
+/-- the full statement for an object body: a dispatched message is built from a body EVERY member
+of which decoded, and is that decoding. FALSE today. -/
+def DispatchOnlyFullyDecoded : Prop :=
+  ∀ (pj : PJ), pj.OK → ∀ (tpls : List (Str × Tpl)) (raw : Obj) (m : List (Str × FV)),
+    Impl.decodeObj pj tpls raw = some m → Spec.decodeMembers pj tpls raw = some m
+
+theorem decodeMembers_sound (pj : PJ) (ok : pj.OK) (tpls : List (Str × Tpl)) :
+    ∀ (raw : Obj) (m : List (Str × FV)), (∀ p ∈ raw, swallowSafe (Impl.tplOf tpls p.1) p.2 = true) →
+      Impl.decodeMembers pj tpls raw = some m → Spec.decodeMembers pj tpls raw = some m
+  | [], m, _, h => by simpa [Impl.decodeMembers, Spec.decodeMembers] using h
+  | (k, j) :: t, m, hs, h => by
+    simp only [Impl.decodeMembers] at h
+    cases hv : Impl.memberOutcome pj k (Impl.tplOf tpls k) j with
+    | none => simp [hv] at h
+    | some v =>
+      cases ht : Impl.decodeMembers pj tpls t with
+      | none => simp [hv, ht] at h
+      | some r =>
+        simp [hv, ht] at h
+        have h1 := decoder_sound_partial pj ok k _ j v (hs (k, j) List.mem_cons_self) hv
+        have h2 := decodeMembers_sound pj ok tpls t r (fun p hp => hs p (List.mem_cons_of_mem _ hp)) ht
+        simp [Spec.decodeMembers, h1, h2, h]
+
+/-- **dispatch_only_fully_decoded_partial**: for a body without duplicate keys whose members are
+all `swallowSafe`, what the server dispatches is the documented decoding of every member. -/
+theorem dispatch_only_fully_decoded_partial (pj : PJ) (ok : pj.OK) (tpls : List (Str × Tpl)) (raw : Obj)
+    (m : List (Str × FV)) (hd : raw.Pairwise (fun a b => a.1 ≠ b.1))
+    (hs : ∀ p ∈ raw, swallowSafe (Impl.tplOf tpls p.1) p.2 = true)
+    (h : Impl.decodeObj pj tpls raw = some m) :
+    Spec.decodeMembers pj tpls raw = some m ∧ Spec.decodesFully pj tpls raw = true := by
+  unfold Impl.decodeObj at h
+  rw [goMap_nodup raw hd] at h
+  have := decodeMembers_sound pj ok tpls raw m hs h
+  exact ⟨this, by simp [Spec.decodesFully, this]⟩
+
+/-- non-vacuity: a two-member body (a hexadecimal member and a plain one) meets the hypotheses. -/
+example : let raw : Obj := [("bHex".toList, .str "cafe".toList), ("note".toList, .str "x".toList)]
+    raw.Pairwise (fun a b => a.1 ≠ b.1) ∧
+    (∀ p ∈ raw, swallowSafe (Impl.tplOf [("bHex".toList, .bytes 5)] p.1) p.2 = true) ∧
+    (Impl.decodeObj pjBytesOnly [("bHex".toList, .bytes 5)] raw).isSome = true := by decide
+
+/-- **¬ DispatchOnlyFullyDecoded, duplicate keys** (finding `dispatched_undecodable:duplicate_key_shadows_invalid_member`):
+the Go map keeps the last binding of a key, so an earlier binding is never decoded, whatever it
+holds: `{"note":1,"note":"x"}` is dispatched although `"note":1` is not a string (and although
+protojson itself refuses duplicate keys for every un-annotated message). -/
+theorem duplicate_key_shadows_invalid_member (pj : PJ) (k : Str) (x : Str)
+    (hbad : pj.plain k (.num (.int 1)) = false) (hgood : pj.plain k (.str x) = true) :
+    Impl.decodeObj pj [] [(k, .num (.int 1)), (k, .str x)] = some [(k, .other (.str x))] ∧
+    Spec.decodesFully pj [] [(k, .num (.int 1)), (k, .str x)] = false := by
+  constructor
+  · simp [Impl.decodeObj, Impl.goMap, Impl.decodeMembers, Impl.memberOutcome, Impl.editMember, Impl.tplOf, pjRead, hgood]
+  · simp [Spec.decodesFully, Spec.decodeMembers, Spec.memberMeaning, Spec.reading, Impl.tplOf, pjRead, hbad]
+
+/-- json tags of the child structs, from the regenerated facts. -/
+def leafTags : List Str := (Gen.Decoders.childJsonTags.filter (·.1 == "Leaf")).map (·.2.toList)
+def textTags : List Str := (Gen.Decoders.childJsonTags.filter (·.1 == "TextVariant")).map (·.2.toList)
+
+/-- **¬, flatten / flattened oneof** (finding `dispatched_undecodable:flattened_child_member_ignored`): the
+decoders file `home_zipCode` / `langCode` under the lowerCamel key, the child struct's json tag is
+the snake_case proto name, encoding/json finds no field and drops the member without looking at
+it — `{"home_zipCode":"zz"}` (a string for an int32) is dispatched. -/
+theorem flattened_child_member_ignored :
+    childKeyDecoded leafTags "zipCode".toList = false ∧ childKeyDecoded leafTags "street".toList = true ∧
+    childKeyDecoded textTags "langCode".toList = false ∧
+    (∀ g : Json → Option FV, Impl.childMember leafTags "zipCode".toList g (.str "zz".toList) = some none) ∧
+    (∀ g : Json → Option FV, g (.str "zz".toList) = none → Spec.childMember g (.str "zz".toList) = none) := by
+  have hz : childKeyDecoded leafTags "zipCode".toList = false := by decide
+  refine ⟨hz, by decide, by decide, ?_, ?_⟩
+  · intro g
+    unfold Impl.childMember
+    rw [hz]
+    rfl
+  · intro g hg
+    unfold Spec.childMember
+    rw [hg]
+    rfl
+
+/-- **¬, flattened oneof** (finding `dispatched_undecodable:flattened_oneof_variant_member_overwritten`):
+the generated assignment `raw["text"], _ = json.Marshal(variant)` replaces whatever the body holds
+under the variant's own key — `{"type":"txt","body":"b","text":-1}` is dispatched, `"text":-1` is
+never decoded. (Tie: the assignment is in the regenerated `OneofFlatReq.type` block.) -/
+theorem flattened_oneof_variant_member_overwritten (k : Str) (own variant : Json) (rest : Obj) :
+    oget k (Impl.oneofFlatAssign k variant ((k, own) :: rest)) = some variant := by
+  unfold Impl.oneofFlatAssign
+  exact Json.oget_oset_same k variant _
+
+theorem oneof_assignment_transcribed :
+    Gen.Decoders.editBlocks.lookup "OneofFlatReq.type" = some
+      "if discRaw, ok := raw[\"type\"]; ok { var disc string if err := json.Unmarshal(discRaw, &disc); err != nil { return fmt.Errorf(\"invalid discriminator %q: %%w\", \"type\", err) } switch disc { case \"txt\": variantMap := make(map[string]json.RawMessage) if fv, exists := raw[\"body\"]; exists { variantMap[\"body\"] = fv delete(raw, \"body\") } if fv, exists := raw[\"langCode\"]; exists { variantMap[\"langCode\"] = fv delete(raw, \"langCode\") } variantData, _ := json.Marshal(variantMap) variant := &TextVariant{} if err := json.Unmarshal(variantData, variant); err != nil { return fmt.Errorf(\"failed to unmarshal variant %s: %%w\", \"Text\", err) } x.Content = &OneofFlatReq_Text{Text: variant} raw[\"text\"], _ = json.Marshal(variant) case \"image\": variantMap := make(map[string]json.RawMessage) if fv, exists := raw[\"url\"]; exists { variantMap[\"url\"] = fv delete(raw, \"url\") } if fv, exists := raw[\"width\"]; exists { variantMap[\"width\"] = fv delete(raw, \"width\") } variantData, _ := json.Marshal(variantMap) variant := &ImageVariant{} if err := json.Unmarshal(variantData, variant); err != nil { return fmt.Errorf(\"failed to unmarshal variant %s: %%w\", \"Image\", err) } x.Content = &OneofFlatReq_Image{Image: variant} raw[\"image\"], _ = json.Marshal(variant) } }" := by
+  rfl
+
+/-- **¬, map-value-unwrap container** (finding `dispatched_undecodable:map_value_unwrap_container_lenient`):
+the container's decoder reads its own keys out of the Go map and returns — no protojson pass — so
+an unknown member is never looked at and a top-level `null` (nil map) is an empty request, while
+every other generated decoder answers 400 to both. -/
+theorem container_lenient :
+    Impl.containerLooksAt ["bySymbol".toList, "note".toList] "nope".toList = false ∧
+    Impl.containerRoot .null = some [] ∧ Spec.containerRoot .null = none := by decide
+
+/-- tie: the container decoder ends with `return nil`, the surgery decoders with protojson. -/
+theorem container_shape_transcribed :
+    (Gen.Decoders.unmarshalShape.lookup "MapValReq") = some ["var raw map[string]json.RawMessage",
+      "if err := json.Unmarshal(data, &raw); err != nil { return err }", "EDIT bySymbol", "EDIT note", "return nil"] ∧
+    ((Gen.Decoders.unmarshalShape.lookup "BytesReq").bind (·.getLast?)) = some "return protojson.Unmarshal(modified, x)" := by
+  constructor <;> rfl
+
+/-- **¬, encoding/json paths** (finding `dispatched_undecodable:invalid_utf8_replaced`): a body that is
+not UTF-8 is not JSON; the members that go through encoding/json are accepted with U+FFFD in
+place of the bad bytes. -/
+theorem invalid_utf8_replaced : Impl.goStringAccepts false = true ∧ Spec.stringAccepts false = false := by decide
+
+/-- **¬, the 400 body** (finding `malformed_error_body:undecodable_input_echoed`): when the decoder's
+error text quotes bytes of a body that is not UTF-8, the ValidationError cannot be marshalled and
+the answer is `text/plain` "error processing request" — a 400, but not a validation error. -/
+theorem error_body_not_always_wellformed : Impl.errorBody false = .plainText ∧ Spec.errorBody false = .validationError := by decide
+
+/-- **error_body_wellformed_partial**: with a UTF-8 description the body is the ValidationError. -/
+theorem error_body_wellformed_partial : Impl.errorBody true = Spec.errorBody true := rfl
+
+/-- tie: the fallback statement of the emitted `writeProtoMessageResponse`. -/
+theorem error_fallback_transcribed :
+    Gen.Decoders.writeProtoMessageResponse[6]? = some "if err != nil { http.Error(w, fallbackMsg, statusCode) return }" := by rfl
+
+/-- **¬, proto field name as key** (finding `dispatched_value:proto_field_name_bypasses_decoder`): proto3 JSON
+accepts `b_hex` as well as `bHex`; the generated edit looks `bHex` up only, so under `b_hex` the
+text is read as base64: `{"b_hex":"cafe"}` reaches the handler as 71 a7 de, not ca fe. -/
+theorem proto_field_name_bypasses_decoder :
+    Impl.surgery pjBytesOnly [("bHex".toList, .bytes 5)] [("b_hex".toList, .str "cafe".toList)] = [("b_hex".toList, .str "cafe".toList)] ∧
+    pjRead pjBytesOnly "b_hex".toList (.bytes 5) (.str "cafe".toList) = some (.bytes [113, 167, 222]) ∧
+    Spec.memberMeaning pjBytesOnly "b_hex".toList (.bytes 5) (.str "cafe".toList) = some (.bytes [202, 254]) := by decide
+
+/-! ## reading the body -/
+
+/-- the JSON reader dispatches nothing from a body it could not read completely. -/
+theorem json_read_sound (r : ReadResult) : Impl.readJSON r = Spec.read r := by
+  cases r <;> rfl
+
+/-- **binary_read_sound_partial**: for a completely read body the binary reader agrees. -/
+theorem binary_read_sound_partial (b : Bytes) : Impl.readBinary (.complete b) = Spec.read (.complete b) := rfl
+
+/-- **¬, truncated binary transfer** (finding `dispatched_undecodable:binary_body_read_error_tolerated`): when the
+connection ends before the declared Content-Length (`io.ErrUnexpectedEOF`), the prefix that did
+arrive is decoded and dispatched; when ANY read error happens before the first byte, the empty
+check comes first and the request is dispatched undecoded. -/
+theorem binary_truncated_body_dispatched :
+    Impl.readBinary (.failed [10, 3, 97, 98, 99] true) = .decode [10, 3, 97, 98, 99] ∧
+    Spec.read (.failed [10, 3, 97, 98, 99] true) = .reject ∧
+    Impl.readBinary (.failed [] false) = .skip ∧ Spec.read (.failed [] false) = .reject := by decide
+
+/-! ## the client -/
+
+open Sebuf.ClientResp in
+/-- **client_total**: whatever the transport delivers — no response, a failing body reader, any
+status with any body — the generated client returns a response or an error value. -/
+theorem client_total {M V E : Type} (d : Decoders M V E) (ct : String) (ex : Exchange) :
+    (∃ m, outcome d ct ex = .ok m) ∨ (∃ k, outcome d ct ex = .err k) := by
+  cases h : outcome d ct ex with
+  | ok m => exact Or.inl ⟨m, rfl⟩
+  | err k => exact Or.inr ⟨k, rfl⟩
+
+open Sebuf.ClientResp in
+/-- a status of 400 or more is never a response, whatever the body decodes to. -/
+theorem client_error_status_is_error {M V E : Type} (d : Decoders M V E) (ct : String) (s : Int) (body : Bytes)
+    (hs : s ≥ 400) : ∃ k, outcome d ct (.response s body) = .err k ∧ (k = .validation ∨ k = .error ∨ k = .status) := by
+  have he : isErrorStatus s = true := by
+    have : Gen.Pipeline.clientErrorThreshold = ">= 400" := by decide
+    simp [isErrorStatus, this, hs]
+  refine ⟨handleError d ct s body, by simp [outcome, he], ?_⟩
+  unfold handleError
+  split
+  · exact Or.inl rfl
+  · split
+    · exact Or.inr (Or.inl rfl)
+    · exact Or.inr (Or.inr rfl)
+
+open Sebuf.ClientResp in
+/-- below 400 the client returns a response exactly when the codec chosen for the CALL's content
+type accepts the body (an empty body is the zero message); otherwise a decode error. -/
+theorem client_ok_iff_decoded {M V E : Type} (d : Decoders M V E) (ct : String) (s : Int) (body : Bytes)
+    (hs : s < 400) (m : M) :
+    outcome d ct (.response s body) = .ok m ↔ unmarshal d.msg d.zeroMsg ct body = some m := by
+  have he : isErrorStatus s = false := by
+    have : Gen.Pipeline.clientErrorThreshold = ">= 400" := by decide
+    simp only [isErrorStatus, this, beq_self_eq_true, if_true, decide_eq_false_iff_not]; omega
+  simp only [outcome, he, Bool.false_eq_true, if_false]
+  cases hu : unmarshal d.msg d.zeroMsg ct body with
+  | none => simp
+  | some x => simp
+
+open Sebuf.ClientResp in
+/-- a ValidationError is reported only for status 400. -/
+theorem client_validation_only_400 {M V E : Type} (d : Decoders M V E) (ct : String) (s : Int) (body : Bytes)
+    (h : outcome d ct (.response s body) = .err .validation) : s = 400 := by
+  have hv : Gen.Pipeline.clientValidationStatusTest = "== http.StatusBadRequest" := by decide
+  simp only [outcome] at h
+  split at h
+  · simp only [Outcome.err.injEq] at h
+    unfold handleError at h
+    split at h
+    · rename_i hc
+      simp only [Bool.and_eq_true, isValidationStatus, hv, beq_self_eq_true, if_true, decide_eq_true_eq] at hc
+      exact hc.1
+    · split at h <;> cases h
+  · split at h <;> cases h
+
+open Sebuf.ClientResp in
+/-- non-vacuity: a 200 with a body the decoder accepts is a response; a 500 is an error. -/
+example : outcome (M := Nat) (V := Nat) (E := Nat) ⟨fun _ _ => some 7, 0, fun _ _ => none, 0, fun _ _ => none, 0⟩ "application/json" (.response 200 [123, 125]) = .ok 7 ∧
+    outcome (M := Nat) (V := Nat) (E := Nat) ⟨fun _ _ => some 7, 0, fun _ _ => none, 0, fun _ _ => none, 0⟩ "application/json" (.response 500 [123, 125]) = .err .status := by
+  constructor <;> rfl
 
 end Sebuf.C11
